@@ -41,4 +41,5 @@ def run(ctx, rep):
     rep.run(RF.rule_namespace_path_lookup, ctx, rep, "V6")
     rep.run(RG.rule_free_text_bounded, ctx, rep, "V7")
     rep.require_min("V6", 4)
+    rep.run(RF.rule_name_dispatch_rejects_unknown, ctx, rep, "V9")
     rep.run(RF.rule_locals_defined, ctx, rep, "U1", packages=("gtwrap/interface_parser", "scripts/"), min_functions=3)
